@@ -54,7 +54,7 @@ var Check = &run.Check{
 }
 
 var opts = javagen.Opts{MinFiles: 1, MaxFiles: 12, MaxMethods: 10, MaxParams: 7, MaxFields: 4, Interfaces: true, Generics: true, Annotations: true, Ctors: true,
-	Overloads: true, Excluded: true, Bodies: true, MaxStmts: 4, MaxSites: 10, LongNames: true, Lambdas: true}
+	Overloads: true, Excluded: true, Bodies: true, MaxStmts: 4, MaxSites: 10, LongNames: true, Lambdas: true, CStyleArrays: true, SuffixImports: true}
 
 func shape(p *javagen.Project) string {
 	var sb strings.Builder
@@ -170,6 +170,64 @@ func runCase(c *run.Ctx, o *run.Outcome) {
 	o.Count("functions_planted", nf)
 	for _, m := range append(ms, ms2...) {
 		o.Violate(m.Sig, "%s", m.Msg)
+	}
+	// second history step (in-process cases): edit the tree in place without changing any file's length (a method
+	// gets a new name of the same length), analyse the same paths again in the same process and decide again
+	if !useCLI && len(o.Violations) == 0 {
+		edited := 0
+		for _, f := range p.Files {
+			if f.Role != javagen.RoleMain || f.Type == nil || c.Rng.Chance(1, 3) {
+				continue
+			}
+			var ms []*javagen.Method
+			for _, m := range f.Type.Methods() {
+				if !m.IsCtor && len(m.Name) >= 2 {
+					ms = append(ms, m)
+				}
+			}
+			if len(ms) == 0 {
+				continue
+			}
+			m := ms[c.Rng.Intn(len(ms))]
+			nb := []byte(m.Name)
+			for i := 1; i < len(nb); i++ {
+				nb[i] = "abcdefghijklmnopqrstuvwxyz"[c.Rng.Intn(26)]
+			}
+			nn := string(nb)
+			clash := nn == m.Name
+			for _, other := range f.Type.Methods() {
+				if other.Name == nn {
+					clash = true
+				}
+			}
+			if clash {
+				continue
+			}
+			f.Text = f.Text[:m.NameByteOff] + nn + f.Text[m.NameByteOff+len(m.Name):]
+			m.Name = nn
+			ioutil.WriteFile(pathOf(f.RelPath), []byte(f.Text), 0o644)
+			edited++
+		}
+		if edited > 0 {
+			o.Count("second_step_files_edited_in_place", edited)
+			var ident2, full2 []core_domain.CodeDataStruct
+			panicked, val, site := run.Guard(func() {
+				ia := javaapp.NewJavaIdentifierApp()
+				ident2 = ia.AnalysisPath(dir)
+				fa := javaapp.NewJavaFullApp()
+				full2 = fa.AnalysisPath(dir, ident2)
+			})
+			if panicked {
+				o.Violate("panic@"+site, "second analysis panicked: %s", val)
+				return
+			}
+			a, _, _ := oracle.CheckDeclarations(p, common.ToObserved(ident2), false, pathOf)
+			b, _, _ := oracle.CheckDeclarations(p, common.ToObserved(full2), true, pathOf)
+			for _, m := range append(a, b...) {
+				o.Violate("after-in-place-edit/"+m.Sig, "second analysis of the same paths after an in-place edit: %s", m.Msg)
+			}
+			o.Count("second_step_analyses", 1)
+		}
 	}
 	if c.Index < 64 {
 		var names []string
